@@ -257,15 +257,28 @@ def _assembly_sparse(repo, col, R=None):
     except Und as e:
         col.unk(R, fi, "assembly of the generic sparse system", f"outside the analysable fragment: {e}", node=fi.node)
         return
-    diag = env.get("diagonal_values")
-    solves = env.get("solves")
+    # which local variables hold the matrix values, the diagonal and the right-hand side: read off the solver call
+    # `spsolve(<values>[data_inds], indices, indptr, <rhs>)` and the concatenation `<values> = concatenate([<diagonal>, -g])`
+    sp = next((c for c in ast.walk(fi.node) if isinstance(c, ast.Call) and "spsolve" in unparse(c.func) and len(c.args) >= 4), None)
+    n_all = n_rhs = n_diag = None
+    if sp is not None:
+        a0 = sp.args[0].value if isinstance(sp.args[0], ast.Subscript) else sp.args[0]
+        n_all = a0.id if isinstance(a0, ast.Name) else None
+        n_rhs = sp.args[3].id if isinstance(sp.args[3], ast.Name) else None
+        for st in fi.node.body:
+            if isinstance(st, ast.Assign) and isinstance(st.targets[0], ast.Name) and st.targets[0].id == n_all:
+                lst = next((x for x in ast.walk(st.value) if isinstance(x, (ast.List, ast.Tuple)) and len(x.elts) == 2), None)
+                if lst is not None and isinstance(lst.elts[0], ast.Name):
+                    n_diag = lst.elts[0].id
+    diag = env.get(n_diag)
+    solves = env.get(n_rhs)
     if not isinstance(diag, ArrV) or not isinstance(solves, ArrV):
         raise AnalysisError("step_voltage_implicit_with_jax_spsolve: diagonal_values / solves not found")
     _cmp_table(ev, col, R, fi, "diagonal_values", diag, "zeros", None,
                [("sinks", "add", "dt*gall"), ("internal_node_inds", "add", "1 + dt*vt")])
     _cmp_table(ev, col, R, fi, "solves (jax.sparse)", solves, "zeros", None, [("internal_node_inds", "add", "v + dt*ct")])
     # all_values = concat([diagonal, -dt*g]) in the order (diagonals, off-diagonals)
-    av = ex.final_env.get("all_values")
+    av = ex.final_env.get(n_all)
     ok = False
     if av is not None:
         lst = T.find(av, lambda x: x.op == "list")
@@ -322,7 +335,8 @@ def _assembly_sparse(repo, col, R=None):
               f"effective row = {eff_row}; diagonal accumulated at `{dix}`",
               f"the sparse matrix is laid out with effective row = `{eff_row}` but the diagonal accumulates the "
               f"conductances at `{dix}`: off-diagonal -dt*g(i<-j) would sit in the row of j", node=call)
-    di = exc.final_env.get("all_inds")
+    # the index array handed to convert_to_csc (row_ind = <it>[0]): the concatenation [diagonal indices, off-diagonal indices]
+    di = row.args[0] if (row is not None and row.op == "sub") else None
     okc = di is not None and T.find(di, lambda x: x.op == "list" and len(x.args) == 2 and
                                     T.find(x.args[0], lambda y: y.op == "mcall" and y.name == "arange") is not None) is not None
     col.check(okc, R, cfi, "index order (diagonals, off-diagonals) matches all_values", "diagonal indices first",
@@ -536,9 +550,10 @@ def _axial_terms_ok(fi) -> bool:
             if diff is None or g is None:
                 continue
             l, r = unparse(diff.left).replace(" ", ""), unparse(diff.right).replace(" ", "")
-            if sl == ":,:-1" and l == "voltages[:,1:]" and r == "voltages[:,:-1]" and g.id == "uppers":
+            # (which conductances multiply which difference is decided by R-C01-explicit on the defining terms, not on the local's name)
+            if sl == ":,:-1" and l == "voltages[:,1:]" and r == "voltages[:,:-1]":
                 found["upper"] = True
-            if sl == ":,1:" and l == "voltages[:,:-1]" and r == "voltages[:,1:]" and g.id == "lowers":
+            if sl == ":,1:" and l == "voltages[:,:-1]" and r == "voltages[:,1:]":
                 found["lower"] = True
     return all(found.values())
 
@@ -667,8 +682,14 @@ def _schedule(repo, col):
                   f"it iterates {it.short(120)}", node=lp)
         names = (a0.name if a0.op == "attr" else None, a1.name if a1.op == "attr" else None)
         tgt = [unparse(x) for x in lp.target.elts] if isinstance(lp.target, ast.Tuple) else []
-        col.check(names == ("children_in_level", "parents_in_level") and tgt == ["cil", "pil"], R, fi,
-                  f"{fname}: (cil, pil) bound to (children_in_level, parents_in_level)", f"{names} -> {tgt}",
+        # the loop variables by what they are bound to (whatever they are called)
+        kind_of = {}
+        if len(tgt) == 2 and set(names) == {"children_in_level", "parents_in_level"}:
+            kind_of = {tgt[k]: ("children" if names[k] == "children_in_level" else "parents") for k in range(2)}
+        cvar = next((v for v, k in kind_of.items() if k == "children"), None)
+        pvar = next((v for v, k in kind_of.items() if k == "parents"), None)
+        col.check(cvar is not None and pvar is not None, R, fi,
+                  f"{fname}: the level loop binds one variable to children_in_level and one to parents_in_level", "zip(children_in_level, parents_in_level)",
                   f"loop binds {tgt} to {names}", node=lp)
         order = [c.func.id for c in _calls_in(lp.body) if c.func.id.startswith(("_triang", "_backsub", "_eliminate"))]
         col.check(order == loop_order, R, fi, f"{fname}: per-level order", " -> ".join(loop_order),
@@ -683,14 +704,16 @@ def _schedule(repo, col):
                   and n.func.id in ("_triang_level", "_backsub_level")]:
             a = unparse(c.args[0])
             inloop = any(c is x for x in ast.walk(lp))
-            col.check(a == ("cil[:, 0]" if inloop else "idx.root_inds"), R, fi, f"{fname}: {c.func.id}({a}, ...)",
+            col.check(a == (f"{cvar}[:, 0]" if inloop else "idx.root_inds"), R, fi,
+                      f"{fname}: {c.func.id} on {'the child branches of the level' if inloop else 'the root branches'}",
                       "children's branches inside the loop, roots outside",
                       f"{c.func.id} is applied to `{a}` {'inside' if inloop else 'outside'} the level loop", node=c)
         # each elimination receives the list of its own kind
         for c in [n for n in ast.walk(lp) if isinstance(n, ast.Call) and isinstance(n.func, ast.Name) and n.func.id.startswith("_eliminate")]:
-            want_arg = "cil" if "children" in c.func.id else "pil"
-            col.check(unparse(c.args[0]) == want_arg, R, fi, f"{fname}: {c.func.id} receives {want_arg}", want_arg,
-                      f"{c.func.id} receives `{unparse(c.args[0])}`", node=c)
+            want_arg = cvar if "children" in c.func.id else pvar
+            col.check(unparse(c.args[0]) == want_arg, R, fi,
+                      f"{fname}: {c.func.id} receives the {'children' if 'children' in c.func.id else 'parents'} of the level", str(want_arg),
+                      f"{c.func.id} receives `{unparse(c.args[0])}` ({kind_of.get(unparse(c.args[0]), 'not a level list')})", node=c)
             cf = repo.func(SV, c.func.id)
             argn = [unparse(x) for x in c.args]
             swapped = [(p, a_) for p, a_ in zip(cf.params[1:], argn[1:]) if a_ != p and a_ in cf.params]
@@ -776,7 +799,7 @@ def _level_io(repo, col, fi):
     kind = "triang" if "triang" in fi.name else "backsub"
     kc = next((n for n in ast.walk(fi.node) if isinstance(n, ast.Call) and isinstance(n.func, ast.Call) and
                unparse(n.func.func).split(".")[-1] == "vmap" and n.func.args and isinstance(n.func.args[0], ast.Name) and
-               n.func.args[0].id.endswith("_fn")), None)
+               n.func.args[0].id not in fi.params), None)   # the kernel chosen per solver name, whatever the local is called
     if kc is None:
         col.unk(R, fi, f"{fi.name}: kernel call", "vmap(<kernel>)(...) not found", node=fi.node)
     else:
@@ -901,8 +924,9 @@ def _scheme(repo, col):
     d = None
     for n in walk_no_nested(fn):
         if isinstance(n, ast.Assign) and isinstance(n.value, ast.Dict) and isinstance(n.targets[0], ast.Name) and \
-                n.targets[0].id == "solver_kwargs":
+                any(isinstance(k, ast.Constant) and k.value == "voltage_terms" for k in n.value.keys):
             d = n.value
+            KW = n.targets[0].id   # the keyword dictionary of the steppers, whatever it is called
     if d is None:
         raise AnalysisError("Module.step: solver_kwargs not found")
     kw = {k.value: ex.term(v) for k, v in zip(d.keys, d.values) if isinstance(k, ast.Constant)}
@@ -932,7 +956,7 @@ def _scheme(repo, col):
         return None
 
     updates = [s_ for s_ in ex.stores if s_.kind == "mcall" and s_.key.name == "update" and isinstance(s_.node.func.value, ast.Name)
-               and s_.node.func.value.id == "solver_kwargs" and s_.node.args and isinstance(s_.node.args[0], ast.Dict)]
+               and s_.node.func.value.id == KW and s_.node.args and isinstance(s_.node.args[0], ast.Dict)]
     if not updates:
         raise AnalysisError("Module.step: the solver_kwargs.update(...) calls were not found")
     base_keys = set(kw)
@@ -1026,12 +1050,20 @@ def _scheme(repo, col):
         if not isinstance(c, ast.Call):
             return None
         dt = next((unparse(k.value) for k in c.keywords if k.arg == "delta_t"), None)
-        star = any(k.arg is None and unparse(k.value) == "solver_kwargs" for k in c.keywords)
+        star = any(k.arg is None and unparse(k.value) == KW for k in c.keywords)
         return unparse(c.func), dt, star
 
     if "bwd_euler" in branches:
         a = assign_v(branches["bwd_euler"])
-        ok = a is not None and call_dt(a.value) == ("step_voltage_implicit", "delta_t", True)
+        # the callee is the local that was bound to the implicit stepper of the chosen back end (see `sels` above)
+        def is_implicit(call_node):
+            if not isinstance(call_node, ast.Call):
+                return False
+            ct = _canon(ex.term(call_node.func))
+            names_ = {x.name for x in ct.walk() if x.op in ("free", "name", "global", "localfn")}
+            return bool(names_) and names_ <= {"step_voltage_implicit_with_jax_spsolve", "step_voltage_implicit_with_jaxley_spsolve"}
+        cd_ = call_dt(a.value) if a is not None else None
+        ok = a is not None and cd_ is not None and is_implicit(a.value) and cd_[1:] == ("delta_t", True)
         col.check(ok, R, fi, "bwd_euler: v' = implicit(dt)", "step_voltage_implicit(**solver_kwargs, delta_t=delta_t)",
                   f"bwd_euler assigns {unparse(a.value) if a else None}", node=a or chain)
     if "fwd_euler" in branches:
@@ -1549,13 +1581,21 @@ def _levels(repo, col, R="R-C01-levels"):
                  "children" if T.find(b, lambda x: x.op == "param" and x.name == "child_belongs_to_branchpoint") is not None else "parents")
     sv = repo.func(SV, "step_voltage_implicit_with_jaxley_spsolve")
     exs = idxm.expander(repo, sv)
-    allv = None
-    for n in walk_no_nested(sv.node):
-        if isinstance(n, ast.Assign) and unparse(n.targets[0]) == "all_branchpoint_vals":
-            allv = [unparse(x) for x in n.value.args[0].elts] if isinstance(n.value, ast.Call) and n.value.args and isinstance(n.value.args[0], (ast.List, ast.Tuple)) else None
+    # the weights handed to group_and_sum together with idx.branchpoint_group_inds: a concatenation of the edges of type 3 (parent
+    # compartment -> branch point) and of type 4 (child compartment -> branch point), identified by the type constant they are
+    # selected with, whatever the local variables are called
     order2 = None
-    if allv and len(allv) == 2:
-        order2 = tuple("parents" if "parents" in x else "children" for x in allv)
+    gs = next((c for c in exs.calls if isinstance(c.func, ast.Name) and c.func.id == "group_and_sum" and c.args), None)
+    if gs is not None:
+        vt = exs.term(gs.args[0])
+        cat2 = T.find(vt, lambda x: x.op == "mcall" and x.name == "concatenate" and len(x.args) > 1 and x.args[1].op in ("list", "tuple"))
+        if cat2 is not None and len(cat2.args[1].args) == 2:
+            def side(t_):
+                ks = {x.args[1].name for x in t_.walk() if x.op == "cmp" and x.name == "==" and len(x.args) == 2 and x.args[1].op == "const"
+                      and x.args[0].op == "param" and x.args[0].name == "types"}
+                return "parents" if ks == {3} else ("children" if ks == {4} else None)
+            o_ = tuple(side(x) for x in cat2.args[1].args)
+            order2 = o_ if None not in o_ else None
     col.add(R, fi, "group indices and concatenated weights list parents first, then children",
             "DISCHARGED" if order == order2 == ("parents", "children") else ("VIOLATED" if order and order2 and order != order2 else "UNDECIDED"),
             f"{order} / {order2}" if order == order2 else
